@@ -1,2 +1,28 @@
 """What MANIFEST.json claims, per property (see mkmanifest.py)."""
-CLAIMS = {}
+CLAIMS = {
+    "C01": dict(
+        category="other", engine="pyvc+rtc",
+        technique="contract-based deductive verification (WP/VC generation from the real Lexer source, z3) + run-time contracts on enumerated inputs + Earley oracle",
+        text="Lexical half proved: every Lexer method and index_to_loc verified against the functional lexical specification for all texts "
+             "(860+ obligations discharged by z3 on every run, counter-models replayed on the real code). Syntactic half bounded: parser verdict "
+             "== Earley verdict over the specification grammar on an enumerated derivation corpus and its single-token edits, 8 flag combinations, "
+             "str and bytes; error rendering exhaustive over (text, position) pairs to the bound; recursion depth probed as the one named case.",
+        note="Trusted: spec/lexical.py and spec/grammar.py transcribe the June-2018 grammar (functional lexical spec validated against a regex "
+             "transcription on 500k+ strings); CPython str semantics as modelled by vf/pyvc; z3. Parser acceptance is bounded, not proved. "
+             "Known findings: error position len+1 at end of input inside an escape (pinned by tests), RecursionError on deep nesting."),
+    "C02": dict(
+        category="other", engine="pyvc+rtc",
+        technique="contract-based deductive verification of token payloads (pyvc/z3) + run-time tree/span contracts on enumerated inputs",
+        text="Token payloads (verbatim names and numbers, escape decoding, raw block text, token spans) are proved for all texts as part of the "
+             "Lexer contracts. parse_block_string == BlockStringValue and the tree-vs-source contracts (span = first token start .. last token end, "
+             "nesting, order, decoded leaves, spanned text reparses to an equal node, no_location) are checked on every node of every accepted "
+             "corpus text: bounded.",
+        note="Trusted: spec/blockstring.py (BlockStringValue transcription), spec/lexical.py; parser node shape is bounded only (Engine B P5 not built)."),
+    "C03": dict(
+        category="other", engine="rtc",
+        technique="run-time contracts (round-trip, fix-point, determinism) on enumerated parser-produced trees; no deductive obligation within reach",
+        text="Bounded stand-in only: for every accepted text of the derivation corpus and a string-payload family (quoted and block form, 8 syntactic "
+             "positions) and 5 indent settings: printing never raises, is deterministic, output parses, parse(print(t)) == t, print is a fix-point.",
+        note="Not a proof: the printer's encoders (json.dumps, str.replace) are outside the VC generator's subset. Known finding: member descriptions "
+             "dropped by print_ast (pinned by tests)."),
+}
